@@ -272,6 +272,8 @@ class C05(common.Check):
                     if (name.startswith("kid.len") or name == "ki.key_length") and v in (-1, 1):
                         v = cur + v
                     out.append([bi, 1, ["field", name, struct.pack("<I", v & 0xFFFFFFFF).hex()]])
+                    if name.startswith("ki."):
+                        out.append([bi, 2, ["field", name, struct.pack("<I", v & 0xFFFFFFFF).hex()]])  # root key loaded without secret agreement parameters
                     if tier == "thorough" or bi % 4 == 0:
                         out.append([bi, 0, ["field", name, struct.pack("<I", v & 0xFFFFFFFF).hex()]])
         # structure-aware DER mutants
@@ -338,9 +340,9 @@ class C05(common.Check):
                 "garbage": "der" if (len(fault) > 2 and fault[2].startswith("der")) else "garbage"}[fault[0]]
         fired = {kind: 1}
         limit = LINE_A + LINE_B * len(stored)
-        follow = bool(with_key) and not bad_load and (fault[0] == "field" or len(stored) % 4 == 1)  # the undamaged blob afterwards, on the same cache
+        follow = with_key == 1 and not bad_load and (fault[0] == "field" or len(stored) % 4 == 1)  # the undamaged blob afterwards, on the same cache
         with common.VmWatch() as vm:
-            out, world, cnt = blobs.unprotect_stored(b, stored, with_key=bool(with_key), line_limit=limit, then_valid=follow, bad_load_first=bad_load, cpu_limit=CPU_S)
+            out, world, cnt = blobs.unprotect_stored(b, stored, with_key=(2 if with_key == 2 else bool(with_key)), line_limit=limit, then_valid=follow, bad_load_first=bad_load, cpu_limit=CPU_S)
         peak = vm.growth
         probes = {"outcome_" + out.kind: 1}
         viol = None
